@@ -294,6 +294,8 @@ def run_internal(cfg, devs, speed=(1, 1), initial=0, stim=(), t_end=3_000_000_00
         TICKLOG.append((getattr(self.update_component, "__self__", None), int(time),
                         sorted(cid(x) for x in update_components), loop.time_ns()))
         info.setdefault("tickers", {})[id(self)] = self
+        if bus is not None:
+            bus.events.append(("tick", getattr(self.update_component, "__self__", None), int(time)))
         return await orig_call(self, time, update_components)
 
     tk.Ticker.__call__ = logged_call
@@ -411,7 +413,31 @@ def run_internal(cfg, devs, speed=(1, 1), initial=0, stim=(), t_end=3_000_000_00
         else:
             lv = sys_level.get(cid(owner.name), 999)     # a scheduler owned by something that is no system simulation of the configuration
         ticklog.append((lv, t, roots))
-    return dict(per=per, trace=[(c, t, dict(i)) for (c, t, i) in TRACE], trace_rt=list(TRACE_RT), ticklog=ticklog,
+    deliveries = None
+    if bus is not None:
+        # the deliveries of the bus, master tick by master tick: [(tick time, [("in", c, t, changes) | ("out", c, t, changes, call_at)
+        # | ("skip", c, t) | ("other", topic, type name)])]
+        from tickit.core.typedefs import Input, Output, Skip
+        deliveries = []
+        for ev in bus.events:
+            if ev[0] == "tick":
+                owner = getattr(getattr(ev[1], "raise_interrupt", None), "__self__", None)
+                if owner is None or not hasattr(owner, "name"):
+                    deliveries.append((ev[2], []))
+                continue
+            msg = ev[2]
+            if isinstance(msg, Input):
+                item = ("in", cid(msg.target), int(msg.time), {pid_(k): v for k, v in msg.changes.items()})
+            elif isinstance(msg, Output):
+                item = ("out", cid(msg.source), int(msg.time), {pid_(k): v for k, v in msg.changes.items()},
+                        None if msg.call_at is None else int(msg.call_at))
+            elif isinstance(msg, Skip):
+                item = ("skip", cid(msg.source), int(msg.time))
+            else:
+                item = ("other", ev[1], type(msg).__name__)
+            if deliveries:
+                deliveries[-1][1].append(item)
+    return dict(per=per, trace=[(c, t, dict(i)) for (c, t, i) in TRACE], trace_rt=list(TRACE_RT), ticklog=ticklog, deliveries=deliveries,
                 mticks=mticks, inj=info.get("inj"), steps=info.get("steps"), overlap=overlap,
                 early_before_scheduler=info.get("early_before_scheduler"),
                 error=err, errors=info.get("errors", []), tasks_done=info.get("tasks_done"), done_by=info.get("done_by"), bus=info.get("bus"),
@@ -535,6 +561,42 @@ def render_sim_case(cfg, devs, speed, initial, stim, t_end, run, pre=()):
             "sc_end := %s; sc_observed := %s; sc_trace := %s; sc_ticklog := %s; sc_mticks := %s |}") % (
         r_config(cfg), r_devs(devs), Zr(speed[0]), Zr(speed[1]), Zr(initial), L(P(c) for c in pre), r_stim(cfg, stim), Zr(t_end), obs,
         trace, ticklog, mticks)
+
+
+def comp_paths(cfg):
+    """component -> the system simulations that enclose it, outermost first"""
+    out = {}
+
+    def walk(lv, path):
+        for (c, k) in cfg[lv]["order"]:
+            out[c] = path
+            if k != "dev":
+                walk(k, path + [c])
+    walk(1, [])
+    return out
+
+
+def render_replay_case(cfg, devs, speed, initial, stim, t_end, run):
+    """the run as a sim_case plus its deliveries (Oracle/HReplay.v [replay_case]); None when the bus delivered something the
+    replay does not model (an exception, a stop message)"""
+    paths = comp_paths(cfg)
+    ticks = []
+    for (t, items) in run["deliveries"]:
+        ms = []
+        for it in items:
+            if it[0] == "other":
+                if it[2] == "Interrupt":
+                    continue        # part of the stimulus (Model/Interrupts.v [stim_at]), applied between the ticks
+                return None
+            pth = L(P(x) for x in paths[it[1]])
+            if it[0] == "in":
+                ms.append("RIn %s %s %s %s" % (pth, P(it[1]), Zr(it[2]), r_values(it[3])))
+            elif it[0] == "out":
+                ms.append("ROut %s %s %s %s %s" % (pth, P(it[1]), Zr(it[2]), r_values(it[3]), "None" if it[4] is None else "(Some %s)" % Zr(it[4])))
+            else:
+                ms.append("RSkip %s %s %s" % (pth, P(it[1]), Zr(it[2])))
+        ticks.append(T(Zr(t), L(ms)))
+    return "(%s, %s)" % (render_sim_case(cfg, devs, speed, initial, stim, t_end, run), L(ticks))
 
 
 SIM_HEADER = "From TV Require Import Base Model.Wiring Model.Ticker Model.Component Model.Sim Oracle.SimCheck."
